@@ -187,17 +187,64 @@ func genStore() (string, error) {
 	}
 	var cid []string
 	var cidSets []string
+	// the version each local VersionedStore is bound to: `v := NewVersionedStore(reader, batch, version)`
+	bound := map[string]string{}
+	ast.Inspect(fd.Body, func(n ast.Node) bool {
+		if as, ok := n.(*ast.AssignStmt); ok && len(as.Lhs) == 1 && len(as.Rhs) == 1 {
+			if c, ok := as.Rhs[0].(*ast.CallExpr); ok && g.ExprText(c.Fun) == "NewVersionedStore" && len(c.Args) == 3 {
+				bound[g.ExprText(as.Lhs[0])] = g.ExprText(c.Args[2])
+			}
+		}
+		return true
+	})
 	for _, c := range calls(fd) {
 		f := g.ExprText(c.Fun)
 		if f == "NewVersionedStore" && len(c.Args) == 3 {
 			cid = append(cid, g.ExprText(c.Args[1]))
 		}
+		// SetAt(key, value, version): explicit version; Set(key, value): the version the store is bound to
 		if strings.HasSuffix(f, ".SetAt") && len(c.Args) == 3 {
 			cidSets = append(cidSets, g.ExprText(c.Args[0])+"@"+g.ExprText(c.Args[2]))
 		}
+		if strings.HasSuffix(f, ".Set") && len(c.Args) == 2 {
+			recv := strings.TrimSuffix(f, ".Set")
+			v, ok := bound[recv]
+			if !ok {
+				v = "?"
+			}
+			cidSets = append(cidSets, g.ExprText(c.Args[0])+"@"+v)
+		}
 	}
 	fmt.Fprintf(&b, "/-- `Store.setCommitID`: the batch of its `NewVersionedStore` -/\ndef setCommitIDBatches : List String := %s\n", strList(cid))
-	fmt.Fprintf(&b, "/-- `Store.setCommitID`: `key@version` of every `SetAt` -/\ndef setCommitIDWrites : List String := %s\n", strList(cidSets))
+	fmt.Fprintf(&b, "/-- `Store.setCommitID`: `key@version` of every write (`SetAt`: its version argument; `Set`: the version its store is bound to) -/\ndef setCommitIDWrites : List String := %s\n", strList(cidSets))
+	// Rollback: where it re-points the latest commit id
+	fdr, err := need("Store", "Rollback")
+	if err != nil {
+		return "", err
+	}
+	var rb []string
+	for _, c := range calls(fdr) {
+		f := g.ExprText(c.Fun)
+		if strings.HasSuffix(f, ".SetAt") && len(c.Args) == 3 && g.ExprText(c.Args[0]) == "lastCommitIDPrefix" {
+			rb = append(rb, g.ExprText(c.Args[0])+"@"+g.ExprText(c.Args[2]))
+		}
+	}
+	fmt.Fprintf(&b, "/-- `Store.Rollback`: `key@version` of its write of the latest commit id -/\ndef rollbackPointerWrites : List String := %s\n", strList(rb))
+	// getLatestCommitID: the version of the reader it looks the pointer up with
+	var glc []string
+	for _, d := range sf.AST.Decls {
+		if fdd, ok := d.(*ast.FuncDecl); ok && fdd.Name.Name == "getLatestCommitID" && fdd.Body != nil {
+			for _, c := range calls(fdd) {
+				if g.ExprText(c.Fun) == "NewVersionedStore" && len(c.Args) == 3 {
+					glc = append(glc, g.ExprText(c.Args[2]))
+				}
+				if strings.HasSuffix(g.ExprText(c.Fun), ".Get") && len(c.Args) == 1 {
+					glc = append(glc, "Get("+g.ExprText(c.Args[0])+")")
+				}
+			}
+		}
+	}
+	fmt.Fprintf(&b, "/-- `getLatestCommitID`: reader version and the key it reads -/\ndef latestCommitIDRead : List String := %s\n", strList(glc))
 	fd, err = need("Store", "purgeLssTombstones")
 	if err != nil {
 		return "", err
